@@ -146,6 +146,9 @@ def build(w, variant='apply'):
                         'implies(_seen[k] and old(has(%s, k)) and entry(not get(self._cache, k)._event.flag) and old(%s._worker_pid) is not None and '
                         'old(%s._worker_pid) != 0 and all(implies(0 <= j and j < len(self._pool), at(self._pool, j).pid != old(%s._worker_pid)) for j in ints()), '
                         '%s._worker_lost is not None or %s._event.flag)' % (cache, jk, jk, jk, jk, jk)),
+                    # P4: the instant of detection and the exit status recorded with it are never overwritten (a later tick that
+                    # reaps another worker must not re-arm the grace period of a job that is already marked)
+                    'a_loss_record_is_never_replaced': Forall(K, 'implies(old(has(%s, k)) and old(%s._worker_lost) is not None, %s._worker_lost == old(%s._worker_lost))' % (cache, jk, jk, jk)),
                     'clock': 'g.now > 0',
                     'resolved_stays_resolved': Forall(K, 'implies(old(has(%s, k)) and old(%s._event.flag), %s._event.flag)' % (cache, jk, jk)),
                     'flags_only_get_set': Forall(K, 'implies(old(has(%s, k)) and entry(%s._event.flag), %s._event.flag)' % (cache, jk, jk)),
@@ -163,6 +166,8 @@ def build(w, variant='apply'):
                 'implies(old(has(%s, k)) and %s._worker_lost != old(%s._worker_lost), old(not %s._event.flag) and '
                 'old(%s._worker_pid) is not None and all(implies(0 <= j and j < len(self._pool), '
                 'at(self._pool, j).pid != old(%s._worker_pid)) for j in ints()))' % (cache, jk, jk, jk, jk, jk)),
+            # ... so "no later than the timeout plus one supervision period after detection" holds across ticks
+            'a_loss_record_is_never_replaced': Forall(K, 'implies(old(has(%s, k)) and old(%s._worker_lost) is not None, %s._worker_lost == old(%s._worker_lost))' % (cache, jk, jk, jk)),
             'only_live_workers_remain': Forall({'j': 'ints()'}, 'implies(0 <= j and j < len(self._pool), %s)' % alive),
             'one_status_per_reaped_worker': 'len(result) == old(len(self._pool)) - len(self._pool)',
         },
@@ -179,7 +184,10 @@ MANIFEST_ENTRY = {
             'C04-a breaks); the reaping loop removes exactly the workers whose exit status is known (or that never started) from '
             'the list and both registries and returns one status per reaped worker; a job gets a loss record only if it is '
             'unresolved and the worker that accepted it was reaped in this tick or is not in the pool, and every unresolved job of '
-            'a reaped worker gets one (or is terminated, for terminate_job).  mark_as_worker_lost fails exactly that job, observably.',
+            'a reaped worker gets one (or is terminated, for terminate_job); a loss record, once set, is never replaced -- its '
+            'detection time and exit status survive later ticks (refuted on the tree before /repo a163998: D13, reaping any other '
+            'worker re-armed the grace period and reset the status to 0; fixed).  mark_as_worker_lost fails exactly that job, '
+            'observably.',
     'note': 'The tick itself (_join_exited_workers) is proved for apply handles.  For the other handle kinds the two places where '
             'ownership and the loss record are handled are under contract (variants map / imap / imapu): MapResult._set clears the '
             'owner of a delivered chunk (refuted on the pinned tree -- D3, a recycled worker failed the whole map -- replayed, fixed '
